@@ -316,7 +316,7 @@ func calledStatic(fn *ssa.Function) []*ssa.Function {
 
 // ruleGRDdupcheck: check-then-register is atomic.
 func ruleGRDdupcheck(w *World, r *Report) {
-	r.Doc("GRD-dupcheck", "every registration of an external id (externalToInternalID[id] = n) in the insertion paths is preceded, inside the same exclusive hold of metaMu, by a lookup of that map: a duplicate test made under an earlier (read) hold lets two concurrent inserts of one id both pass and create two live nodes", 2)
+	r.Doc("GRD-dupcheck", "every registration of an external id (externalToInternalID[id] = n) in the insertion paths is preceded, inside the same exclusive hold of metaMu, by a lookup of that map: a duplicate test made under an earlier (read) hold lets two concurrent inserts of one id both pass and create two live nodes", 1)
 	n := 0
 	for _, name := range []string{"Index.addActive", "Index.addBatchInternal"} {
 		fi := w.Func("pkg/core/hnsw", name)
